@@ -41,8 +41,10 @@ try:
                 sys.exit(f"pattern occurs {n} times; use --nth")
             s = s.replace(a.old, a.new)
         else:
-            parts = s.split(a.old)
-            s = a.old.join(parts[: a.nth]) + a.new + a.old.join(parts[a.nth:])
+            pos = -1
+            for _ in range(a.nth):
+                pos = s.index(a.old, pos + 1)
+            s = s[:pos] + a.new + s[pos + len(a.old):]
         open(p, "w").write(s)
     env = dict(os.environ, BATCHIE_REPO=d, PYTHONDONTWRITEBYTECODE="1")
     killed = True
